@@ -4,6 +4,7 @@ package service
 
 import (
 	"errors"
+	"time"
 
 	"github.com/cuteLittleDevil/go-jt808/protocol/jt808"
 )
@@ -11,6 +12,7 @@ import (
 func init() {
 	vrtHarnesses["VerifC11Registry"] = VerifC11Registry
 	vrtHarnesses["VerifC11Connections"] = VerifC11Connections
+	vrtHarnesses["VerifC11Schedules"] = VerifC11Schedules
 }
 
 func c11Msg(key string) *Message {
@@ -152,4 +154,163 @@ func VerifC11Connections() {
 	vrt_Yield()
 	vrt_Assert(len(c06Frames(vrt_ConnWritten(c3.conn))) == 2, "command not routed to the connection that took over the key")
 	vrt_Cover("reconnect", true)
+}
+
+// ---- schedules ----
+
+type c11Ev struct {
+	conn int
+	kind int // 0 join ok, 1 join refused, 2 leave
+	key  string
+}
+
+type c11Log struct{ evs []c11Ev }
+
+type c11Rec struct {
+	vRecorder
+	id  int
+	log *c11Log
+}
+
+func (r *c11Rec) OnJoinEvent(msg *Message, key string, err error) {
+	k := 0
+	if err != nil {
+		k = 1
+	}
+	r.log.evs = append(r.log.evs, c11Ev{r.id, k, key})
+}
+func (r *c11Rec) OnLeaveEvent(key string) { r.log.evs = append(r.log.evs, c11Ev{r.id, 2, key}) }
+
+// VerifC11Schedules: connection A owns a key; then, in every order and - within the deviation
+// bound - overlapping at every channel, socket and go operation of the real code: A's peer
+// closes, a second connection B presents the same key, and a caller sends a command for the key.
+// Checked on the final (quiescent) state, so that no assertion depends on one goroutine having
+// run before another: nothing panicked; each connection was announced at most once to the join
+// callback and exactly once to the leave callback if it ended, with the key it had obtained (the
+// empty key if it was refused); at most one connection still owns the key; the command was
+// written to exactly one connection that had joined, or failed; a later command reaches the
+// connection that now owns the key, or fails at once with the not-exist error if none does.
+func VerifC11Schedules() {
+	vrt_ClockFrozen()
+	vrt_Sched(0)
+	g := &GoJT808{}
+	sm := newSessionManager(func(m *Message) (string, bool) { return m.JTMessage.Header.TerminalPhoneNo, true })
+	vrt_Go(sm.run)
+	log := &c11Log{}
+	conns := []*connection{}
+	mk := func(id int) *connection {
+		ev := &c11Rec{id: id, log: log}
+		conn := vrt_NewTCPConn()
+		vrt_ConnLive(conn)
+		c := newConnection(conn, g.createDefaultHandle(), ev, true, sm.join, sm.leave)
+		vrt_Go(c.reader)
+		vrt_Go(c.write)
+		conns = append(conns, c)
+		return c
+	}
+	phone := []byte{0x01, 0x23, 0x45, 0x67, 0x89, 0x02}
+	key := jt808BcdString(phone)
+	a := mk(0)
+	vrt_ConnPushRead(a.conn, (&vFrame{id: 0x0002, phone: phone, serial: 1}).bytes())
+	b := mk(1)
+	vrt_Quiesce()
+	vrt_Assert(len(log.evs) == 1 && log.evs[0] == c11Ev{0, 0, key}, "first connection not announced to the join callback with its key")
+	k := 1
+	if vrt_Tier() > 0 {
+		k = 2
+	}
+	order := vrt_Choose("order", 6)
+	backToBack := vrt_Choose("backToBack", 2) == 1 // the three actions without letting the system settle in between
+	vrt_Sched(k)
+	var res *Message
+	done := false
+	acts := [][3]int{{0, 1, 2}, {0, 2, 1}, {1, 0, 2}, {1, 2, 0}, {2, 0, 1}, {2, 1, 0}}[order]
+	for _, act := range acts {
+		switch act {
+		case 0:
+			vrt_ConnEOF(a.conn)
+		case 1:
+			vrt_ConnPushRead(b.conn, (&vFrame{id: 0x0002, phone: phone, serial: 7}).bytes())
+		case 2:
+			vrt_Go(func() {
+				res = sm.write(NewActiveMessage(key, 0x8104, []byte{1}, time.Second))
+				done = true
+			})
+		}
+		if !backToBack {
+			vrt_Yield()
+		}
+	}
+	vrt_Cover("back-to-back", backToBack)
+	vrt_Quiesce()
+	vrt_Wake() // the command's timeout, if it is still waiting for the terminal's answer
+	vrt_Quiesce()
+	// callbacks per connection
+	owner := -1
+	for id := 0; id < 2; id++ {
+		joins, refused, leaves := 0, 0, 0
+		leaveKey := ""
+		for _, e := range log.evs {
+			if e.conn != id {
+				continue
+			}
+			switch e.kind {
+			case 0:
+				joins++
+				vrt_Assert(e.key == key, "join callback with another key")
+			case 1:
+				refused++
+			case 2:
+				leaves++
+				leaveKey = e.key
+			}
+		}
+		vrt_Assert(joins+refused <= 1, "connection announced to the join callback more than once")
+		vrt_Assert(leaves <= 1, "connection announced to the leave callback more than once")
+		if leaves == 1 {
+			if joins == 1 {
+				vrt_Assert(leaveKey == key, "leave callback with a key other than the one the connection had joined with")
+			} else {
+				vrt_Assert(leaveKey == "", "a connection that never owned the key left with it (the owner would be evicted)")
+			}
+		}
+		if refused == 1 {
+			vrt_Assert(leaves == 1, "refused connection was not closed")
+		}
+		if joins == 1 && leaves == 0 {
+			vrt_Assert(owner == -1, "two live connections own the same key")
+			owner = id
+		}
+	}
+	vrt_Assert(owner != 0, "the first connection still owns the key although its peer has closed")
+	// the command: written to one connection that had joined, or failed
+	wa := len(c06Frames(vrt_ConnWritten(a.conn)))
+	wb := len(c06Frames(vrt_ConnWritten(b.conn)))
+	vrt_Assert(done && res != nil, "SendActiveMessage has not returned")
+	cmdA, cmdB := wa-1, 0 // A answered its heartbeat
+	if wb > 0 {
+		cmdB = wb - 1
+		for _, e := range log.evs {
+			if e.conn == 1 && e.kind == 1 {
+				cmdB = wb // a refused connection gets no heartbeat reply
+			}
+		}
+	}
+	vrt_Assert(cmdA+cmdB <= 1, "one command was written more than once")
+	if cmdA+cmdB == 0 {
+		vrt_Assert(res.ExtensionFields.Err != nil, "command reported as delivered but written to no connection")
+	}
+	vrt_Cover("second-connection-took-over", owner == 1)
+	vrt_Cover("second-connection-refused", owner == -1)
+	vrt_Cover("command-to-first", cmdA == 1)
+	vrt_Cover("command-to-second", cmdB == 1)
+	// a later command follows the current owner
+	var late *Message
+	vrt_Go(func() { late = sm.write(NewActiveMessage(key, 0x8104, []byte{2}, time.Second)) })
+	vrt_Quiesce()
+	if owner == -1 {
+		vrt_Assert(late != nil && late.ExtensionFields.Err != nil && errors.Is(late.ExtensionFields.Err, ErrNotExistKey), "key not free although no live connection owns it")
+	} else {
+		vrt_Assert(len(c06Frames(vrt_ConnWritten(b.conn))) == wb+1, "command not routed to the connection that now owns the key")
+	}
 }
